@@ -28,16 +28,16 @@ CONSTANTS
   Ids = {"b1", "b2", "b3"}
   Addrs = {1, 2, 3}
   Slots <- %(slots)s
-  Configs <- MCConfigs
+  Configs <- %(configs)s
   Keys = %(keys)s
   Stickies = %(stickies)s
   Policies %(policies)s
   Metrics = %(metrics)s
   MaxTries = 2
-  Thresholds = {2}
+  Thresholds = %(ths)s
   HCap = 2
   MaxSteps = %(steps)d
-  MaxLoad = 2
+  MaxLoad = %(load)s
   Deviations = %(dev)s
 %(view)s
 INVARIANTS %(invs)s
@@ -110,6 +110,7 @@ def mc_cfg(wd, name, steps, dev, slots="MCSlots3", policies=None, view=True, sma
         "slots": slots, "steps": steps, "dev": tla_set(dev), "invs": INVS,
         "keys": "{1}" if small else "{1, 2}", "stickies": "{}" if small else '{"s1"}',
         "metrics": '{"conns"}' if small else '{"conns", "reqs"}',
+        "configs": "MCConfigsDev" if small else "MCConfigs", "ths": "{}" if small else "{2}", "load": "0" if small else "2",
         "policies": ("= " + tla_set(policies)) if policies else "<- AllPolicies",
         "view": "VIEW view" if view else ""})
 
@@ -206,7 +207,7 @@ def run(tier, replay=None):
     # 3. S->I: TLC generates histories + oracle, the replayer executes them on the real BackendMap
     beh = os.path.join(wd, "behaviours.ndjson")
     gen_workers = 8
-    n_hist = 4000 if thorough else 480
+    n_hist = 4000 if thorough else 320
     with open(beh, "w") as f:
         g = vlib.tlc("Gen_Backends", write(wd, "gen.cfg", GEN_CFG % {"steps": 16 if thorough else 12, "dev": tla_set(devs)}),
                      PID, workers=gen_workers, timeout=1500, simulate="num=%d" % (n_hist // gen_workers), depth=20,
@@ -219,7 +220,7 @@ def run(tier, replay=None):
     by_op = {}
     for variant in ([0, 1, 2] if thorough else [0, 1]):
         out = vlib.run_harness(bins["replay_backends"],
-                               ["--seed", str(seed * 7 + variant), "--reps", "4", "--hcap", "2",
+                               ["--seed", str(seed * 7 + variant), "--reps", "4", "--hcap", "2", "--max-tries", "2",
                                 "--deviations", ",".join(devs)], stdin_path=beh, timeout=1500)
         summ = [o for o in out if o.get("kind") == "summary"]
         if not summ:
